@@ -120,23 +120,23 @@ def pmap(fn, items):
         return list(ex.map(fn, items))
 
 
-def lib_ir(lib, exclude=()):
+def lib_ir(lib, exclude=(), libdefs=()):
     srcs = [f for f in lib_sources(lib) if os.path.relpath(f, COLA) not in exclude]
-    return pmap(compile_ir, srcs)
+    return pmap(lambda f: compile_ir(f, tuple(libdefs)), srcs)
 
 
-def lib_objs(lib, exclude=(), san=False):
+def lib_objs(lib, exclude=(), san=False, libdefs=()):
     srcs = [f for f in lib_sources(lib) if os.path.relpath(f, COLA) not in exclude]
-    return pmap(lambda f: compile_obj(f, (), san), srcs)
+    return pmap(lambda f: compile_obj(f, tuple(libdefs), san), srcs)
 
 
-def build_module(harness, defines=(), libs=(), exclude=(), keep=('harness',)):
+def build_module(harness, defines=(), libs=(), exclude=(), keep=('harness',), libdefs=()):
     """returns path of the linked, pruned .ll"""
     hsrc = harness if os.path.isabs(harness) else os.path.join(VERIF, 'harness', harness)
-    h_ll = compile_ir(hsrc, defines)
+    h_ll = compile_ir(hsrc, list(defines) + list(libdefs))
     parts = [h_ll, models_ir()]
     for lib in libs:
-        parts += lib_ir(lib, exclude)
+        parts += lib_ir(lib, exclude, libdefs)
     key = sha('link', *[os.path.basename(p) for p in parts])
     def prod(out):
         linked = out + '.linked.bc'
@@ -155,11 +155,11 @@ MODEL_SYMS = ['__model_rb_increment', '__model_rb_decrement', '__model_rb_insert
               '__model_hash_bytes', '__model_prime_next_bkt', '__model_prime_need_rehash']
 
 
-def build_native(harness, defines=(), libs=(), exclude=(), san=False):
+def build_native(harness, defines=(), libs=(), exclude=(), san=False, libdefs=()):
     hsrc = harness if os.path.isabs(harness) else os.path.join(VERIF, 'harness', harness)
-    objs = [compile_obj(hsrc, defines, san)]
+    objs = [compile_obj(hsrc, list(defines) + list(libdefs), san)]
     for lib in libs:
-        objs += lib_objs(lib, exclude, san)
+        objs += lib_objs(lib, exclude, san, libdefs)
     rt = os.path.join(VERIF, 'engine', 'native_rt.c')
     key = sha('exe', 'san' if san else 'plain', open(rt, 'rb').read(), *[os.path.basename(o) for o in objs])
     def prod(out):
